@@ -255,7 +255,7 @@ use std::collections::BTreeMap;
 #[derive(Clone, Debug, PartialEq, Eq)]
 pub enum LoaderEv {
     Call { referrer: String, specifier: String },
-    Done { specifier: String, ok: bool },
+    Done { referrer: String, specifier: String, ok: bool },
 }
 
 #[derive(Clone, Debug, Default)]
@@ -264,6 +264,8 @@ pub struct LoadPlan {
     pub latency: u32,
     /// 0 none, 1 fetch error, 2 parse error (source is replaced by broken text)
     pub fault: u8,
+    /// 0 = the fault is permanent; k = only the first k requests for this module fail
+    pub fault_times: u32,
 }
 
 /// Stub of the host's module fetcher: seeded latency per request, injected fetch / parse
@@ -277,6 +279,8 @@ pub struct SimLoader {
     pub delays_fired: Cell<u64>,
     pub fetch_errors: Cell<u64>,
     pub parse_errors: Cell<u64>,
+    /// requests seen so far per specifier (transient faults count them)
+    pub attempts: RefCell<BTreeMap<String, u32>>,
 }
 
 struct Latency(u32);
@@ -299,12 +303,27 @@ impl SimLoader {
         self.cache.borrow().iter().find(|(_, v)| *v == m).map_or_else(|| "?".to_string(), |(k, _)| k.clone())
     }
 
+    /// The fault planned for `specifier`, if it still applies to the current request.
+    fn active_fault(&self, specifier: &str, ordinal: u32) -> u8 {
+        let plans = self.plans.borrow();
+        let Some(p) = plans.get(specifier) else { return 0 };
+        if p.fault != 0 && (p.fault_times == 0 || ordinal <= p.fault_times) { p.fault } else { 0 }
+    }
+
     /// Parses (once) and returns the record for `specifier`.
     pub fn get_or_parse(&self, specifier: &str, ctx: &mut Context) -> JsResult<Module> {
-        if let Some(m) = self.cache.borrow().get(specifier) {
-            return Ok(m.clone());
+        self.get_or_parse_nth(specifier, 0, ctx)
+    }
+
+    /// `ordinal`: which request for this specifier this is (1-based; 0 = handed over by the host).
+    fn get_or_parse_nth(&self, specifier: &str, ordinal: u32, ctx: &mut Context) -> JsResult<Module> {
+        // the fault belongs to the request, whatever another request has cached meanwhile
+        let fault = if ordinal == 0 { 0 } else { self.active_fault(specifier, ordinal) };
+        if fault != 2 {
+            if let Some(m) = self.cache.borrow().get(specifier) {
+                return Ok(m.clone());
+            }
         }
-        let fault = self.plans.borrow().get(specifier).map_or(0, |p| p.fault);
         let src = if fault == 2 {
             self.parse_errors.set(self.parse_errors.get() + 1);
             "export let v = ;".to_string()
@@ -336,19 +355,25 @@ impl ModuleLoader for SimLoader {
             Referrer::Realm(_) => "<realm>".to_string(),
             Referrer::Script(_) => "<script>".to_string(),
         };
-        self.log.borrow_mut().push(LoaderEv::Call { referrer, specifier: spec.clone() });
+        self.log.borrow_mut().push(LoaderEv::Call { referrer: referrer.clone(), specifier: spec.clone() });
+        let ordinal = {
+            let mut a = self.attempts.borrow_mut();
+            let n = a.entry(spec.clone()).or_insert(0);
+            *n += 1;
+            *n
+        };
         let plan = self.plans.borrow().get(&spec).cloned().unwrap_or_default();
         if plan.latency > 0 {
             self.delays_fired.set(self.delays_fired.get() + 1);
             Latency(plan.latency).await;
         }
-        let r = if plan.fault == 1 {
+        let r = if self.active_fault(&spec, ordinal) == 1 {
             self.fetch_errors.set(self.fetch_errors.get() + 1);
             Err(boa_engine::JsNativeError::typ().with_message(format!("SIM fetch failed: {spec}")).into())
         } else {
-            self.get_or_parse(&spec, &mut context.borrow_mut())
+            self.get_or_parse_nth(&spec, ordinal, &mut context.borrow_mut())
         };
-        self.log.borrow_mut().push(LoaderEv::Done { specifier: spec, ok: r.is_ok() });
+        self.log.borrow_mut().push(LoaderEv::Done { referrer, specifier: spec, ok: r.is_ok() });
         r
     }
 }
